@@ -41,6 +41,13 @@ def run(W, chk):
             exact_origins(da[2]) == {O + ".operations[*].MantraSwap.token_out_denom"} and keys == {O + ".operations[*].MantraSwap.pool_identifier"}
         chk.expect(ok, "AGREE-route", "simulate.hop", "hop(offer = initial amount or previous return, token_in -> token_out, pool_identifier)",
                    "simulated hop is fed %s / %s / pools %s" % ({k: sorted(v) for k, v in am.items()}, sorted(all_origins(da[2])), sorted(keys)), where(e))
+    from rules.common import loop_accumulators, loop_chains, all_elements_processed
+    loop_accumulators(W, chk, ["pool_manager"])   # incl. the reverse quote's fee sums
+    from rules.common import visited_fns
+    RQ = W.run(PM, "query", ("ReverseSimulateSwapOperations",), pol)
+    # hop k's return is hop k+1's offer, unconditionally (simulated, reverse and executed routes)
+    loop_chains(W, chk, ["pool_manager"], only=visited_fns(Q, RQ, W.run(PM, "execute", ("ExecuteSwapOperations",), pol)))
+    all_elements_processed(chk, W, Q, r"\.operations\[\*\]", "simulate", "AGREE-route")
     from rules.common import no_truncation
     no_truncation(chk, Q, r"\.operations\[\*\]", "simulate.all-hops", "AGREE-route")
     r = Q.ret if Q.ret is not None else EMPTY
@@ -60,6 +67,7 @@ def run(W, chk):
         chk.expect(ok, "AGREE-route", "execute.hop", "hop(offer = paid amount or previous return_asset, -> token_out, pool_identifier)",
                    "executed hop is fed %s / %s / pools %s" % ({k: sorted(v) for k, v in am.items()}, sorted(all_origins(da[2])), sorted(keys)), where(e))
     no_truncation(chk, X, r"\.operations\[\*\]", "execute.all-hops", "AGREE-route")
+    all_elements_processed(chk, W, X, r"\.operations\[\*\]", "execute", "AGREE-route")
     mp = X.calls(r"cw_utils::must_pay$")
     chk.expect(len(mp) == 1 and exact_origins(mp[0].extra["dargs"][1]) == {E + ".operations[*].MantraSwap.token_in_denom"}, "AGREE-route", "execute.offer",
                "the paid-in coin must be the first operation's input denom", "must_pay denom %s" % [sorted(all_origins(x.extra["dargs"][1])) for x in mp], X.entry)
